@@ -1,10 +1,12 @@
 (* C12 — the Connect CA issues only authorized, verifiable identities.
    Theorems only; each closed by an application of a lemma of CA/{Proofs,UrlProofs,Confusion,Witness}.v.
 
-   The model (CA/Model.v) follows the code as it is.  Three clauses of the property are FALSE of
-   the code for agent identities and for root lists with repeated IDs; for those the file carries
-   a [_refuted] witness (replayed on the implementation by the harness: known findings) and a
-   [_partial] theorem under the exact condition that excludes the failing class.
+   The model (CA/Model.v) follows the code as it is at /repo HEAD, including the three repairs
+   88c1fa0 (datacenter test for agent identities), b4828e2 (the agent host rewrite compares
+   identities, not URL strings) and 6968ec2 (a root list whose active entry is overwritten by a
+   later entry with the same ID is refused).  One clause is still FALSE of the code and carries a
+   [_refuted] witness (known finding): a name with an encoded "/" can be issued with a URI that no
+   reader can parse back - never one that reads as a different identity (C12_no_confusion).
    "Chains to the currently active root" is not a theorem: X.509 is outside the model; the direct
    oracle checks crypto/x509 verification against the store's active root on every issued leaf. *)
 From Verif Require Import Base.Prelude.
@@ -20,56 +22,39 @@ Open Scope list_scope.
 
 (* ------------------------------------------------------------------ issuing *)
 
-(* Everything a successful CAManager.AuthorizeAndSignCertificate implies, for every authorizer,
-   request and state: exactly one URI SAN and no e-mail SAN; the URI parses as an identity of a
-   supported kind; the token grants write on exactly that service / node / mesh / ACL scope;
-   for services, mesh gateways and servers the datacenter is this one, the host is the trust
-   domain and the certificate carries the requested URI unchanged; for agents the certificate
-   carries [agent_cert_uri]; the certificate is not a CA, copies the DNS/IP SANs and takes the
-   next serial number of the replicated counter. *)
+(* The property's issuing clause, for every authorizer, request and state.  A successful
+   CAManager.AuthorizeAndSignCertificate implies: exactly one URI SAN and no e-mail SAN; the URI
+   parses as an identity of a supported kind; the token grants write on exactly that service /
+   node / mesh / ACL scope; the certificate is not a CA and takes the next serial number of the
+   replicated counter; and [identity_clauses]: the identity's datacenter is this one, and the
+   certificate carries exactly one URI, whose host is the cluster's trust domain, which is the
+   requested URI or - agents only - the identity printed with the host coerced to the trust
+   domain. *)
 Theorem C12_issue_sound : forall e az c s crt s',
-  sign_request e az c s = Ok (crt, s') ->
-  exists u id,
-    csr_uris c = [u] /\ csr_emails c = 0 /\ parse_cert_uri u = Ok id /\
-    validate_supported id = true /\ granted az id /\
-    (is_agent id = false ->
-       id_dc id = e_dc e /\ lower (id_host id) = trust_domain e /\ c_uris crt = [u]) /\
-    (is_agent id = true -> c_uris crt = [agent_cert_uri e u id]) /\
-    c_is_ca crt = false /\ c_dns crt = csr_dns c /\ c_ips crt = csr_ips c /\
-    c_serial crt = next_serial s /\ s' = incr_serial s.
-Proof. exact issue_sound. Qed.
-
-(* The property's identity clauses: this datacenter, and a certificate URI in this trust domain
-   that is the requested URI or (agents) the identity printed with the host coerced. *)
-Definition C12_identity_clauses := identity_clauses.
-
-(* They hold for every issued certificate outside [agent_exception]: an agent identity whose
-   datacenter is foreign, or whose host is foreign while its URI is not spelled canonically. *)
-Theorem C12_issue_sound_partial : forall e az c s crt s',
   sign_request e az c s = Ok (crt, s') ->
   exists u id,
     csr_uris c = [u] /\ csr_emails c = 0 /\ parse_cert_uri u = Ok id /\
     validate_supported id = true /\ granted az id /\ c_is_ca crt = false /\
     c_serial crt = next_serial s /\
-    (agent_exception e u id = false -> C12_identity_clauses e u id crt).
-Proof. exact issue_sound_partial. Qed.
+    (id_dc id = e_dc e /\
+     exists u', c_uris crt = [u'] /\ lower (u_host u') = trust_domain e /\
+                (u' = u \/ (is_agent id = true /\ u' = uri_of (coerce e id)))).
+Proof. exact issue_sound_full. Qed.
 
-(* ... and fail inside it.  Datacenter: node:write on "n1" obtains a certificate for the agent
-   identity of ANOTHER datacenter (AuthorizeAndSignCertificate has no datacenter test for agents). *)
-Theorem C12_issue_sound_refuted_datacenter :
-  exists e az c s crt s' u id,
-    sign_request e az c s = Ok (crt, s') /\ csr_uris c = [u] /\ parse_cert_uri u = Ok id /\
-    id_dc id <> e_dc e.
-Proof. exact refuted_datacenter. Qed.
-
-(* Trust domain: the same token, a foreign host and the spelling "/ap/default/agent/client/..."
-   (or any percent-escape, query, fragment): SignCertificate's "fix the trust domain" compares
-   URL strings, finds no match and leaves the foreign host in the certificate. *)
-Theorem C12_issue_sound_refuted_trust_domain :
-  exists e az c s crt s' u',
-    sign_request e az c s = Ok (crt, s') /\ c_uris crt = [u'] /\
-    lower (u_host u') <> trust_domain e.
-Proof. exact refuted_trust_domain. Qed.
+(* The same with the code's case split visible: services, mesh gateways and servers keep the
+   requested URI and their host is the trust domain; agents keep it when the host already is the
+   trust domain and get the re-printed identity otherwise; DNS/IP SANs are copied; the state
+   changes by the serial counter only. *)
+Theorem C12_issue_sound_detailed : forall e az c s crt s',
+  sign_request e az c s = Ok (crt, s') ->
+  exists u id,
+    csr_uris c = [u] /\ csr_emails c = 0 /\ parse_cert_uri u = Ok id /\
+    validate_supported id = true /\ granted az id /\ id_dc id = e_dc e /\
+    (is_agent id = false -> lower (id_host id) = trust_domain e /\ c_uris crt = [u]) /\
+    (is_agent id = true -> c_uris crt = [agent_cert_uri e u id]) /\
+    c_is_ca crt = false /\ c_dns crt = csr_dns c /\ c_ips crt = csr_ips c /\
+    c_serial crt = next_serial s /\ s' = incr_serial s.
+Proof. exact issue_sound. Qed.
 
 (* ------------------------------------------------------------------ identities and their spelling *)
 
@@ -89,7 +74,7 @@ Proof. exact unescape_escape. Qed.
 (* No confusion.  For every issued certificate whose request URL is as url.Parse produces it
    ([url_wf]; escaped, case-varied, decorated spellings included): whatever identity ANY reader
    obtains by parsing the certificate's URI SAN is [cert_identity] - the identity the ACL check
-   was made for (host and partition normalised when the CA re-printed an agent URI) - so it has
+   was made for (host coerced and partition defaulted when the CA re-printed an agent URI) - so it has
    the same ACL scope and name, and the token that was presented grants write on it. *)
 Theorem C12_no_confusion : forall e az c s crt s',
   sign_request e az c s = Ok (crt, s') ->
@@ -129,29 +114,30 @@ Proof. exact serials_increasing. Qed.
 
 (* ------------------------------------------------------------------ the root set *)
 
-(* Every state reachable by commands whose root lists have pairwise distinct IDs has no root or
-   exactly one active root. *)
-Theorem C12_one_active_partial : forall s, Reach s -> one_active s.
+(* Every reachable state - any sequence of CA commands at any indexes, root lists with repeated
+   IDs included - has no root or exactly one active root. *)
+Theorem C12_one_active : forall s, Reach s -> one_active s.
 Proof. exact reach_one_active. Qed.
 
-(* Without the distinct-ID condition the clause is refuted: [{a, active}; {a, inactive}] passes the
-   "exactly one active" test (counted over the list) and leaves one inactive row. *)
-Theorem C12_one_active_refuted :
-  let cmd := OpSetRoots 0 [("a", true); ("a", false)] in
-  snd (step empty_store 1 cmd) = OBool true /\
-  s_roots (fst (step empty_store 1 cmd)) = [Root "a" false 1 1] /\
-  active_count (s_roots (fst (step empty_store 1 cmd))) = 0%nat.
-Proof. exact one_active_refuted_witness. Qed.
+(* The list that used to break the clause ([{a, active}; {a, inactive}]: one Active flag in the
+   list, but the row is overwritten) is refused and changes nothing; the list the leader emits when
+   only the intermediates of a root change ([{a, inactive}; {a, active}]) is accepted. *)
+Theorem C12_active_overwritten_refused :
+  step empty_store 1 (OpSetRoots 0 [("a", true); ("a", false)]) = (empty_store, OErr EActiveOverwritten) /\
+  step empty_store 1 (OpSetRoots 0 [("a", false); ("a", true)]) =
+    (Store [Root "a" true 1 1] 1 None [] 0 None, OBool true).
+Proof. exact active_overwritten_refused. Qed.
 
 (* A set-roots command replaces the WHOLE set (nothing of the old set survives, every given ID is
    stored, index entry := this Raft index, nothing else changes) and answers true, or changes
    NOTHING and does not answer true; with a non-matching index it changes nothing and answers
-   false (or the one-active error). *)
+   false (or one of the two errors about the list itself). *)
 Theorem C12_root_swap_atomic : forall s idx cidx rs s' r,
   step s idx (OpSetRoots cidx rs) = (s', r) ->
   (r = OBool true /\ s_roots_idx s = cidx /\ count_active rs = 1%nat /\
    replaced_by (s_roots s) idx rs (s_roots s') /\ s_roots_idx s' = idx /\ same_but_roots s s')
-  \/ (s' = s /\ r <> OBool true /\ (s_roots_idx s <> cidx -> r = OBool false \/ r = OErr EOneActive)).
+  \/ (s' = s /\ r <> OBool true /\
+      (s_roots_idx s <> cidx -> r = OBool false \/ r = OErr EOneActive \/ r = OErr EActiveOverwritten)).
 Proof. exact set_roots_atomic. Qed.
 
 (* Roots and configuration in one command: both are replaced or nothing changes. *)
@@ -189,11 +175,17 @@ Example C12_issue_example :
     Ok (Cert [w_web_esc] [] [] false 1, incr_serial empty_store).
 Proof. exact (conj w_web_esc_wf w_web_esc_issued). Qed.
 
-(* an agent request outside [agent_exception]: the dummy host is coerced into the trust domain *)
+(* agent requests: the dummy host of auto-encrypt, a foreign host with an explicit default
+   partition and one with a percent-escape are all coerced into the trust domain; an agent
+   identity of another datacenter is refused *)
 Example C12_agent_example :
-  agent_exception w_env w_agent_dummy (IdAgent "dummy.consul" "default" "dc1" "n1") = false /\
   sign_request w_env w_az (w_csr w_agent_dummy) empty_store =
-    Ok (Cert [Url "spiffe" w_td "/agent/client/dc/dc1/id/n1" "" true] [] [] false 1, incr_serial empty_store).
+    Ok (Cert [w_agent_td] [] [] false 1, incr_serial empty_store) /\
+  sign_request w_env w_az (w_csr w_agent_foreign) empty_store =
+    Ok (Cert [w_agent_td] [] [] false 1, incr_serial empty_store) /\
+  sign_request w_env w_az (w_csr w_agent_esc) empty_store =
+    Ok (Cert [w_agent_td] [] [] false 1, incr_serial empty_store) /\
+  sign_request w_env w_az (w_csr w_agent_dc2) empty_store = Err EDatacenter.
 Proof. exact agent_example. Qed.
 
 (* well-formed identities exist for [C12_parse_print] *)
@@ -210,9 +202,7 @@ Example C12_reach_example :
 Proof. exact (conj w_hist_reach w_hist_result). Qed.
 
 Print Assumptions C12_issue_sound.
-Print Assumptions C12_issue_sound_partial.
-Print Assumptions C12_issue_sound_refuted_datacenter.
-Print Assumptions C12_issue_sound_refuted_trust_domain.
+Print Assumptions C12_issue_sound_detailed.
 Print Assumptions C12_parse_print.
 Print Assumptions C12_parse_print_cert.
 Print Assumptions C12_unescape_escape.
@@ -220,8 +210,8 @@ Print Assumptions C12_no_confusion.
 Print Assumptions C12_readings_agree.
 Print Assumptions C12_cert_identity_readable_refuted.
 Print Assumptions C12_serial_fresh.
-Print Assumptions C12_one_active_partial.
-Print Assumptions C12_one_active_refuted.
+Print Assumptions C12_one_active.
+Print Assumptions C12_active_overwritten_refused.
 Print Assumptions C12_root_swap_atomic.
 Print Assumptions C12_roots_and_config_atomic.
 Print Assumptions C12_config_cas_honest.
